@@ -130,16 +130,37 @@ Proof.
   split; [repeat split; assumption|]. rewrite !axis_warning_R. reflexivity.
 Qed.
 
-(* resample(new_pixel_size) = Grid(the same six bounds, new_pixel_size) *)
+(* resample(new_pixel_size) = Grid(the same six bounds, new_pixel_size).
+   REPAIR: the bounds reach the constructor as numpy scalars, so a zero pixel size on a non-degenerate
+   axis ends in OverflowError (round(inf)) instead of ZeroDivisionError: the error kind goes through
+   np_zero_err; a successful resampling and every other error kind are those of the constructor *)
 Lemma grid_resample_R xmin xmax ymin ymax zmin zmax dx dy dz g px :
   axis_okR xmin xmax dx -> axis_okR ymin ymax dy -> axis_okR zmin zmax dz ->
   grid_init NumR xmin xmax ymin ymax zmin zmax (PxSeq [dx; dy; dz]) = inr g ->
-  grid_resample NumR g px = grid_init NumR xmin xmax ymin ymax zmin zmax px.
+  grid_resample NumR g px = match grid_init NumR xmin xmax ymin ymax zmin zmax px with
+                            | inl e => inl (np_zero_err e)
+                            | inr r => inr r
+                            end.
 Proof.
   intros Hx Hy Hz Hg. destruct (grid_init_R _ _ _ _ _ _ _ _ _ Hx Hy Hz) as (g' & Hg' & _ & _ & _ & _ & Hm & _).
   rewrite Hg in Hg'. injection Hg' as <-. destruct Hm as (A & B & C & D & E & F).
   unfold grid_resample. rewrite A, B, C, D, E, F. reflexivity.
 Qed.
+
+(* ... in particular: a resampling that the constructor accepts is the constructor's grid, and a zero
+   pixel size on a non-degenerate first axis is an OverflowError *)
+Lemma grid_resample_ok_R xmin xmax ymin ymax zmin zmax dx dy dz g px r :
+  axis_okR xmin xmax dx -> axis_okR ymin ymax dy -> axis_okR zmin zmax dz ->
+  grid_init NumR xmin xmax ymin ymax zmin zmax (PxSeq [dx; dy; dz]) = inr g ->
+  grid_init NumR xmin xmax ymin ymax zmin zmax px = inr r -> grid_resample NumR g px = inr r.
+Proof. intros Hx Hy Hz Hg Hr. rewrite (grid_resample_R _ _ _ _ _ _ _ _ _ _ px Hx Hy Hz Hg), Hr. reflexivity. Qed.
+
+Lemma grid_resample_zero_R xmin xmax ymin ymax zmin zmax dx dy dz g px :
+  axis_okR xmin xmax dx -> axis_okR ymin ymax dy -> axis_okR zmin zmax dz ->
+  grid_init NumR xmin xmax ymin ymax zmin zmax (PxSeq [dx; dy; dz]) = inr g ->
+  grid_init NumR xmin xmax ymin ymax zmin zmax px = inl ZeroDivisionError ->
+  grid_resample NumR g px = inl OverflowError.
+Proof. intros Hx Hy Hz Hg Hr. rewrite (grid_resample_R _ _ _ _ _ _ _ _ _ _ px Hx Hy Hz Hg), Hr. reflexivity. Qed.
 
 (* ---- grid_centred_at_point ------------------------------------------------------------------ *)
 Lemma grid_centred_obj_cases cx cy cz sx sy sz px :
@@ -350,6 +371,24 @@ Proof.
     generalize (c_origin c). intros oo. v3_start. v3_split; ring.
   - rewrite <- (from_gcs_dist_R (cs_axes NumR (c_i c) (c_j c)) (c_origin c) p _ Hc).
     rewrite <- !cs_convert_from_is_from_gcs. rewrite <- Eo. fold q. rewrite vdist_formula. reflexivity.
+Qed.
+
+(* REPAIR: the same meaning stated ON the function: c_convert_from_gcs_pairwise answers arrays only for
+   1-d origins and points with at least one dimension (pairwise_modelled; NotModelled otherwise, where
+   numpy broadcasts instead of forming the outer difference), and on that domain the entries at
+   ip ++ io of the three arrays are the triple above *)
+Lemma pairwise_meaning_fun_R c (P O : points R) ip io (p o : vec3 R) : frame_exact c ->
+  pairwise_modelled P O = true -> nd_wf O -> nd_get P ip = Some p -> nd_get O io = Some o ->
+  exists X Y Z x y z, c_convert_from_gcs_pairwise NumR c P O = inr (X, Y, Z) /\
+    nd_get X (ip ++ io) = Some x /\ nd_get Y (ip ++ io) = Some y /\ nd_get Z (ip ++ io) = Some z /\
+    (x, y, z) = cs_convert_from_gcs NumR (cs_convert_to_gcs NumR (c_origin c) (c_i c) (c_j c) o) (c_i c) (c_j c) p /\
+    sqrt (x * x + y * y + z * z) = vdist NumR p (cs_convert_to_gcs NumR (c_origin c) (c_i c) (c_j c) o).
+Proof.
+  intros F D W Hp Ho.
+  destruct (pairwise_get NumR c P O ip io p o D W Hp Ho) as (X & Y & Z & E & _ & _ & _ & Hx & Hy & Hz).
+  destruct (pairwise_meaning_R c p o F) as [M1 M2].
+  exists X, Y, Z. do 3 eexists. split; [exact E|]. split; [exact Hx|]. split; [exact Hy|]. split; [exact Hz|].
+  split; [exact M1 | exact M2].
 Qed.
 
 (* ====================================================================================== *)
